@@ -440,6 +440,12 @@ class Tr:
         self.err(s, 'unsupported statement %s' % type(s).__name__)
 
     def call_stmt(self, call, env, node):
+        # growth of a purely numeric local list: `forces.append(<arithmetic>)` -- no effect on agents
+        if isinstance(call.func, ast.Attribute) and call.func.attr in ('append', 'extend') and isinstance(call.func.value, ast.Name) \
+                and env.get(call.func.value.id) is not None and env[call.func.value.id].kind == 'num' and not call.keywords:
+            for a in call.args:
+                self.ev_num(a, env)
+            return []
         fn = self.ev(call.func, env)
         if fn.kind == 'modattr' and fn.mod == 'logger':
             for a in call.args:
@@ -1072,7 +1078,30 @@ class Tr:
             out.extend(self.stmt(st, env))
         if env.get(last.value.id) is None or env[last.value.id].kind != 'hist':
             raise TranslationError(file, last, 'run does not return the history')
-        return seq(out)
+        return norm_if(seq(out))
+
+
+def norm_if(s):
+    """Python's short-circuit `and` / `or` / `not` in a test are control flow: `if c1 or c2: A else: B` evaluates c2 only when c1 is false,
+    i.e. it IS `if c1: A else: (if c2: A else: B)`.  Writing it that way keeps the order in which numeric tests consume draws and lets
+    the analyses see which fitness comparison guards a write."""
+    k = s[0]
+    if k == 'At':
+        return ('At', s[1], norm_if(s[2]))
+    if k == 'Seq':
+        return ('Seq', norm_if(s[1]), norm_if(s[2]))
+    if k in ('ForSlots', 'RepeatAny', 'Repeat', 'Onlooker'):
+        return (k, norm_if(s[1]))
+    if k == 'If':
+        c, a, b = s[1], norm_if(s[2]), norm_if(s[3])
+        if c[0] == 'COr':
+            return norm_if(('If', c[1], a, ('If', c[2], a, b)))
+        if c[0] == 'CAnd':
+            return norm_if(('If', c[1], ('If', c[2], a, b), b))
+        if c[0] == 'CNot':
+            return norm_if(('If', c[1], b, a))
+        return ('If', c, a, b)
+    return s
 
 
 def used_as_index(stmts, name):
